@@ -125,6 +125,7 @@ struct Kernel {
   AllocStats alloc;
   bool alloc_track = true;
   uint64_t syscalls = 0;
+  bool icmp_recv_only = false;   // a pending ICMP error is reported by recv()/recvmsg() only, never by send() (worlds whose oracle counts wire transmissions)
   int exit_called = 0;
   int exit_code = 0;
   uint64_t sysrng_state = 0x1234567, sysrng_word = 0, sysrng_pos = 0;   // getrandom() stream
